@@ -26,6 +26,7 @@ fn main() {
         "expr_literal" => expr_literal(&input),
         "loop_runs" => loop_runs(&input),
         "subst_signed_zero" => subst_signed_zero(&input),
+        "measure_match" => measure_match(&input),
         "name_spelling" => name_spelling(&input),
         "simplify_value" => simplify_value(&input),
         "frame_match" => frame_match(&input),
@@ -596,6 +597,44 @@ fn subst_signed_zero(text: &str) -> Result<(), String> {
         if (direct - after).norm() > 1e-9 {
             return Err(format!(
                 "`{line}` with x = -4+0i, y = -4-0i evaluates to {direct} with the bindings but to {after} after substituting them"
+            ));
+        }
+    }
+    Ok(())
+}
+
+/// C16 (measurements): for every MEASURE in the body, the calibration found is the last definition with an exact
+/// fixed-qubit match, else the last one with a variable qubit, among those with the same name and record/effect kind
+fn measure_match(text: &str) -> Result<(), String> {
+    use quil_rs::instruction::Qubit;
+    let program = Program::from_str(text).map_err(|e| format!("input does not parse: {e}"))?;
+    let definitions: Vec<_> = program.calibrations.iter_measure_calibrations().collect();
+    for instruction in program.body_instructions() {
+        let Instruction::Measurement(m) = instruction else { continue };
+        let (mut exact, mut wildcard) = (None, None);
+        for d in &definitions {
+            let id = &d.identifier;
+            if id.name != m.name || id.target.is_some() != m.target.is_some() {
+                continue;
+            }
+            match &id.qubit {
+                q @ Qubit::Fixed(_) if *q == m.qubit => exact = Some(*d),
+                Qubit::Variable(_) => wildcard = Some(*d),
+                _ => {}
+            }
+        }
+        let expected = exact.or(wildcard);
+        let found = program.calibrations.get_match_for_measurement(m);
+        let show = |d: Option<&quil_rs::instruction::MeasureCalibrationDefinition>| {
+            d.map(|d| quil_rs::quil::Quil::to_quil_or_debug(d).replace('\n', " | ")).unwrap_or_else(|| "none".to_string())
+        };
+        println!("{}: {}", quil_rs::quil::Quil::to_quil_or_debug(instruction), show(found));
+        if found != expected {
+            return Err(format!(
+                "`{}` is matched with [{}] but the rules give [{}]",
+                quil_rs::quil::Quil::to_quil_or_debug(instruction),
+                show(found),
+                show(expected)
             ));
         }
     }
